@@ -166,7 +166,7 @@ def run(ctx):
     ctx.cov["rule"] = ("corr: %d case lines (kinds %s); distinct = distinct case lines; search: %d random fragments through InitProtect/"
                        "EncryptFragment/encode/decode with the clauses of the property evaluated in the harness (partition, per-byte shape, "
                        "saiz/saio vs the encoded senc, IV sequence, Go crypto/aes driven by the harness' own CTR / CBC-pattern loops, "
-                       "trun/tfdt unchanged, box-by-box diff of the encoded clear and encrypted files (same boxes + saiz/saio/senc, trun data offset shifted by the added bytes, mdat equal outside the senc maps), every sample read from the RAW encoded file at moof start + trun.data_offset + sizes before = reference cipher output; 1/5 of the video fragments carry empty NAL units (trailing / inside for cenc / the 4-byte sample), 1/12 a clear run of exactly 65534..65537 / 131070..131072 bytes; 1/3 of the video fragments use a synthetic HEVC configuration whose slice header sizes are known from the harness' bit writer; unusual-but-valid NALU placements in every second video fragment; 0-2 other encrypted fragments in front (non-zero moof start), InitProtectData via ExtractInitProtectData on the re-decoded init in 1/4 of the runs, AES-192/256 keys in 1/9)" % (len(lines), kinds, ns))
+                       "trun/tfdt unchanged, box-by-box diff of the encoded clear and encrypted files (same boxes + saiz/saio/senc, trun data offset shifted by the added bytes, mdat equal outside the senc maps), every sample read from the RAW encoded file at moof start + trun.data_offset + sizes before = reference cipher output; 1/5 of the video fragments carry empty NAL units (trailing / inside for cenc / the 4-byte sample), 1/12 a clear run of exactly 65534..65537 / 131070..131072 bytes; 1/3 of the video fragments use a synthetic HEVC configuration whose slice header sizes are known from the harness' bit writer; unusual-but-valid NALU placements in every second video fragment; 0-2 other encrypted fragments in front (non-zero moof start), InitProtectData via ExtractInitProtectData on the re-decoded init in 1/4 of the runs, AES-192/256 keys in 1/9; 2/5 of the runs without OptimizeTrun are read against an init whose trex has non-trivial defaults (built before InitProtect; the same init is protected, encoded, decoded and used by every oracle step) and signal sample size / duration / flags per sample in trun, as tfhd defaults or ONLY through that trex (constant-size samples, first-sample-flags), with decoy trex values where the fragment signals the field itself: counts in notes.search_notes.fragments_with_*)" % (len(lines), kinds, ns))
 
 
 def replay(ctx, path):
